@@ -490,7 +490,7 @@ int main(int argc, char **argv)
     if ((e = getenv("VERIF_N"))) N_TREE = atoi(e);
     if (vf_g.replay) replay_main();
     int deaths = vf_run_workers(worker);
-    static char bound[900], extra[300];
+    static char bound[1800], extra[300];
     snprintf(bound, sizeof bound,
              "bytes: every object-framed sequence of <= %d tokens and every unframed sequence of <= 2 tokens (incl. the empty vector) over the %d-token hostile alphabet, every valid "
              "object with <= %d value tokens and ALL its one-deviation mutants, 3 documents over 1000 bytes, each through the 3 deserialize overloads; trees: every object with <= %d "
@@ -508,6 +508,9 @@ int main(int argc, char **argv)
     vf_evidence_spec es;
     memset(&es, 0, sizeof es);
     es.c_states = CT_STATES; es.c_transitions = CT_CALLS; es.c_validated = CT_CALLS;
+    snprintf(bound + strlen(bound), sizeof bound - strlen(bound), "%s",
+             "; later additions: every key put twice on odd insertion orders (a decoy of another type first, through each put overload); deserialize into an object holding stale values "
+             "under the document's own keys; the parser-pointer overload handed parsers with 5 histories; every pair and triple of small sibling subtrees; keys \"aab\" < \"ab\"");
     es.bound = bound; es.extra_json = extra;
     es.rule = "exhaustive enumeration of byte inputs x overloads and of trees x insertion orders; states = (input, overload) and (tree, order) pairs; transitions = real deserialize calls";
     es.assumptions = assumptions; es.nassumptions = 3;
